@@ -5,7 +5,6 @@ import (
 	"go/ast"
 	"go/token"
 	"go/types"
-	"sort"
 	"strings"
 
 	"bebopverif/internal/core"
@@ -308,48 +307,23 @@ func checkC15(c *core.Ctx) {
 		}
 		sites++
 		members := map[string]int{}
-		ast.Inspect(fd.Body, func(m ast.Node) bool {
-			if sel, is := m.(*ast.SelectorExpr); is && (sel.Sel.Name == "Value" || sel.Sel.Name == "UintValue") {
-				if t := info.TypeOf(sel.X); t != nil && strings.HasSuffix(t.String(), ".EnumOption") {
-					members[sel.Sel.Name]++
-				}
+		for _, d := range declClosure(p, pkg, fd, 2) {
+			if d != fd && (d.Name.Name == "evaluateBitflagExpSigned" || d.Name.Name == "evaluateBitflagExprUnsigned") {
+				continue // the sibling evaluator has obligations of its own
 			}
-			return true
-		})
-		c.Check("R1", ev.fn+" looks identifiers up in ."+ev.member, p.Pos(fd.Pos()), members[ev.member] > 0 && members[ev.other] == 0,
-			fmt.Sprintf("an identifier in a flag expression must evaluate to the member the enum's signedness populates; members read: %v", members))
-		// the four operators map to the four Go operators
-		ops := map[string]token.Token{"tokenKindAmpersand": token.AND, "tokenKindVerticalBar": token.OR, "tokenKindDoubleCaretLeft": token.SHL, "tokenKindDoubleCaretRight": token.SHR}
-		okOps := true
-		ast.Inspect(fd.Body, func(m ast.Node) bool {
-			cc, is := m.(*ast.CaseClause)
-			if !is || len(cc.List) != 1 {
-				return true
-			}
-			if want, tracked := ops[wire.Canon(cc.List[0])]; tracked {
-				good := false
-				if len(cc.Body) == 1 {
-					if r, isR := cc.Body[0].(*ast.ReturnStmt); isR && len(r.Results) == 2 && wire.Canon(r.Results[1]) == "nil" {
-						if be, isB := ast.Unparen(r.Results[0]).(*ast.BinaryExpr); isB && be.Op == want {
-							_, lid := ast.Unparen(be.X).(*ast.Ident)
-							_, rid := ast.Unparen(be.Y).(*ast.Ident)
-							good = lid && rid && wire.Canon(be.X) != wire.Canon(be.Y)
-						}
+			ast.Inspect(d.Body, func(m ast.Node) bool {
+				if sel, is := m.(*ast.SelectorExpr); is && (sel.Sel.Name == "Value" || sel.Sel.Name == "UintValue") {
+					if t := info.TypeOf(sel.X); t != nil && strings.HasSuffix(t.String(), ".EnumOption") {
+						members[sel.Sel.Name]++
 					}
 				}
-				if !good {
-					okOps = false
-				}
-				delete(ops, wire.Canon(cc.List[0]))
-			}
-			return true
-		})
-		var left []string
-		for k := range ops {
-			left = append(left, k)
+				return true
+			})
 		}
-		sort.Strings(left)
-		c.Check("R1", ev.fn+" maps & | << >> to the same Go operators", p.Pos(fd.Pos()), okOps && len(ops) == 0, fmt.Sprintf("operators without a matching arm: %v", left))
+		c.Check("R1", ev.fn+" looks identifiers up in ."+ev.member, p.Pos(fd.Pos()), members[ev.member] > 0 && members[ev.other] == 0,
+			fmt.Sprintf("an identifier in a flag expression must evaluate to the member the enum's signedness populates; members read: %v", members))
+		// (that the four operators are computed with the Go operators of the same
+		// spelling is R8, operatorTable)
 	}
 	c.Count("signedness_sites", sites)
 	c.Floor("signedness_sites", 4)
@@ -807,8 +781,162 @@ func operatorTable(c *core.Ctx, p *load.Prog) {
 		c.Undecide("evaluateBitflagExpr not found")
 		return
 	}
+	closure := declClosure(p, pkg, root, 3)
+	// ---- where the operators are implemented: clauses of a switch on the
+	// operator kind (in an evaluator's arm or in a helper), or entries of a
+	// table from kinds to function literals. Each implementation is
+	// `L OP R` over two distinct operands in a known order.
+	type impl struct {
+		kind  string
+		op    token.Token
+		l, r  types.Object
+		pos   token.Pos
+		okBin bool
+		why   string
+	}
+	type dispatch struct {
+		impls []impl
+		sw    *ast.SwitchStmt // switch form
+		owner *ast.FuncDecl   // function holding the switch or the table
+	}
+	isOpKind := func(e ast.Expr) (string, bool) {
+		id, ok := ast.Unparen(e).(*ast.Ident)
+		if !ok {
+			return "", false
+		}
+		if _, known := goOp[spelled[id.Name]]; known {
+			return id.Name, true
+		}
+		return "", false
+	}
+	binOf := func(e ast.Expr) (*ast.BinaryExpr, types.Object, types.Object) {
+		be, ok := ast.Unparen(e).(*ast.BinaryExpr)
+		if !ok {
+			return nil, nil, nil
+		}
+		l, okl := ast.Unparen(be.X).(*ast.Ident)
+		r, okr := ast.Unparen(be.Y).(*ast.Ident)
+		if !okl || !okr {
+			return be, nil, nil
+		}
+		return be, info.ObjectOf(l), info.ObjectOf(r)
+	}
+	var dispatches []*dispatch
+	for _, fd := range closure {
+		fd := fd
+		ast.Inspect(fd.Body, func(n ast.Node) bool {
+			switch x := n.(type) {
+			case *ast.SwitchStmt:
+				if x.Tag == nil {
+					return true
+				}
+				if t := info.TypeOf(x.Tag); t == nil || !strings.HasSuffix(t.String(), ".tokenKind") {
+					return true
+				}
+				d := &dispatch{sw: x, owner: fd}
+				for _, cc := range x.Body.List {
+					cl := cc.(*ast.CaseClause)
+					for _, ke := range cl.List {
+						kind, ok := isOpKind(ke)
+						if !ok {
+							continue
+						}
+						im := impl{kind: kind, pos: cl.Pos(), why: "no successful return in the clause"}
+						for _, st := range cl.Body {
+							r, isR := st.(*ast.ReturnStmt)
+							if !isR || len(r.Results) == 0 {
+								continue
+							}
+							last := wire.Canon(r.Results[len(r.Results)-1])
+							if last != "nil" && last != "true" {
+								continue
+							}
+							be, lo, ro := binOf(r.Results[0])
+							if be == nil {
+								im.why = "returns " + wire.Canon(r.Results[0]) + ", not an application of the operator"
+								continue
+							}
+							im.op, im.l, im.r = be.Op, lo, ro
+							im.okBin = lo != nil && ro != nil && lo != ro
+							if !im.okBin {
+								im.why = "the operands of " + wire.Canon(be) + " are not two distinct variables"
+							}
+						}
+						d.impls = append(d.impls, im)
+					}
+				}
+				if len(d.impls) > 0 {
+					dispatches = append(dispatches, d)
+				}
+			case *ast.CompositeLit:
+				mt, ok := info.TypeOf(x).Underlying().(*types.Map)
+				if !ok || !strings.HasSuffix(mt.Key().String(), ".tokenKind") {
+					return true
+				}
+				if _, isFn := mt.Elem().Underlying().(*types.Signature); !isFn {
+					return true
+				}
+				d := &dispatch{owner: fd}
+				for _, e := range x.Elts {
+					kv, ok := e.(*ast.KeyValueExpr)
+					if !ok {
+						continue
+					}
+					kind, ok := isOpKind(kv.Key)
+					if !ok {
+						continue
+					}
+					im := impl{kind: kind, pos: kv.Pos(), why: "the entry is not a function literal that returns an application of the operator"}
+					if fl, isLit := ast.Unparen(kv.Value).(*ast.FuncLit); isLit && len(fl.Body.List) == 1 {
+						if r, isR := fl.Body.List[0].(*ast.ReturnStmt); isR && len(r.Results) == 1 {
+							be, lo, ro := binOf(r.Results[0])
+							var ps []types.Object
+							for _, f := range fl.Type.Params.List {
+								for _, nm := range f.Names {
+									ps = append(ps, info.Defs[nm])
+								}
+							}
+							if be != nil && len(ps) == 2 {
+								im.op, im.l, im.r = be.Op, lo, ro
+								// in a literal the order is that of its own parameters
+								im.okBin = lo == ps[0] && ro == ps[1]
+								if !im.okBin {
+									im.why = "the literal computes " + wire.Canon(be) + ", not <first parameter> OP <second parameter>"
+								}
+							}
+						}
+					}
+					d.impls = append(d.impls, im)
+				}
+				if len(d.impls) > 0 {
+					dispatches = append(dispatches, d)
+				}
+			}
+			return true
+		})
+	}
+	if len(dispatches) == 0 {
+		c.Undecide("no dispatch on the operator kind (a switch, or a table of function literals) was found under evaluateBitflagExpr")
+		return
+	}
+	// the clause of each kind applies the Go operator spelled like the schema's
+	for _, d := range dispatches {
+		name := d.owner.Name.Name
+		for _, im := range d.impls {
+			text := spelled[im.kind]
+			okArm := im.okBin && im.op == goOp[text]
+			why := im.why
+			if im.okBin && im.op != goOp[text] {
+				why = fmt.Sprintf("the schema operator %q is computed with Go's %s", text, im.op)
+			}
+			c.Check("R8", fmt.Sprintf("%s computes %q with the Go operator of the same spelling", name, text), p.Pos(im.pos), okArm, why)
+		}
+	}
+	// ---- the evaluators' arms for a binary node hand the two evaluated
+	// operands, in order, to the operator, and return nothing else as a value
 	nArms := 0
-	for _, fd := range declClosure(p, pkg, root, 2) {
+	for _, fd := range closure {
+		fd := fd
 		ast.Inspect(fd.Body, func(n ast.Node) bool {
 			ts, ok := n.(*ast.TypeSwitchStmt)
 			if !ok {
@@ -827,7 +955,6 @@ func operatorTable(c *core.Ctx, p *load.Prog) {
 				if !ok {
 					continue
 				}
-				// a binary node: two fields of the node interface type, one of a token kind
 				var operandFields []string
 				for i := 0; i < st.NumFields(); i++ {
 					if _, isIface := st.Field(i).Type().Underlying().(*types.Interface); isIface {
@@ -839,7 +966,6 @@ func operatorTable(c *core.Ctx, p *load.Prog) {
 				}
 				nArms++
 				name := fd.Name.Name
-				// L and R: the variables that receive the evaluation of the two operands
 				operand := map[types.Object]int{}
 				for _, stmt := range cl.Body {
 					as, ok := stmt.(*ast.AssignStmt)
@@ -866,20 +992,121 @@ func operatorTable(c *core.Ctx, p *load.Prog) {
 					c.Undecide("%s: the two operand evaluations of the binary node arm are not recognised", name)
 					continue
 				}
-				// the switch on the operator kind
-				var opSwitch *ast.SwitchStmt
-				for _, stmt := range cl.Body {
-					if sw, ok := stmt.(*ast.SwitchStmt); ok && sw.Tag != nil {
-						if t := info.TypeOf(sw.Tag); t != nil && strings.HasSuffix(t.String(), ".tokenKind") {
-							opSwitch = sw
+				operandIdx := func(e ast.Expr) int {
+					if id, ok := ast.Unparen(e).(*ast.Ident); ok {
+						if k, isOp := operand[info.ObjectOf(id)]; isOp {
+							return k
+						}
+					}
+					return -1
+				}
+				inOrder := func(args []ast.Expr) bool {
+					first, second := -1, -1
+					for i, a := range args {
+						switch operandIdx(a) {
+						case 0:
+							first = i
+						case 1:
+							second = i
+						}
+					}
+					return first >= 0 && second > first
+				}
+				var viaSwitch *dispatch
+				okApply, whyApply := false, "the arm neither switches on the operator kind nor hands its operands to a function that does"
+				for _, d := range dispatches {
+					if d.sw != nil && d.owner == fd && cl.Pos() <= d.sw.Pos() && d.sw.End() <= cl.End() {
+						viaSwitch = d
+						okApply = true
+						for _, im := range d.impls {
+							if im.okBin {
+								li, lok := operand[im.l]
+								ri, rok := operand[im.r]
+								if !lok || !rok {
+									okApply, whyApply = false, "a clause of the operator switch computes with something other than the two evaluated operands"
+								} else if li != 0 || ri != 1 {
+									okApply, whyApply = false, "a clause of the operator switch has the operands swapped"
+								}
+							}
 						}
 					}
 				}
-				if opSwitch == nil {
-					c.Undecide("%s: the binary node arm does not dispatch on the operator kind with a switch", name)
-					continue
+				if viaSwitch == nil {
+					ast.Inspect(&ast.BlockStmt{List: cl.Body}, func(m ast.Node) bool {
+						call, ok := m.(*ast.CallExpr)
+						if !ok {
+							return true
+						}
+						// a helper that holds the switch: the call passes the operands, in
+						// order, in the positions of the parameters its clauses apply
+						if cal := load.Callee(info, call); cal != nil {
+							for _, d := range dispatches {
+								if d.sw == nil || info.Defs[d.owner.Name] != types.Object(cal) {
+									continue
+								}
+								sig, _ := cal.Type().(*types.Signature)
+								good := sig != nil
+								for _, im := range d.impls {
+									if !im.okBin || sig == nil {
+										continue
+									}
+									li, ri := -1, -1
+									for k := 0; k < sig.Params().Len(); k++ {
+										if types.Object(sig.Params().At(k)) == im.l {
+											li = k
+										}
+										if types.Object(sig.Params().At(k)) == im.r {
+											ri = k
+										}
+									}
+									if li < 0 || ri < 0 || li >= len(call.Args) || ri >= len(call.Args) {
+										good = false
+										continue
+									}
+									if operandIdx(call.Args[li]) != 0 || operandIdx(call.Args[ri]) != 1 {
+										good = false
+									}
+								}
+								if good {
+									okApply = true
+								} else {
+									whyApply = "the operands are not handed to " + cal.Name() + " in the order its clauses apply them"
+								}
+							}
+						}
+						// a function value (taken from a table of literals): f(L, R)
+						if id, ok := ast.Unparen(call.Fun).(*ast.Ident); ok {
+							if v, isVar := info.ObjectOf(id).(*types.Var); isVar {
+								if _, isFn := v.Type().Underlying().(*types.Signature); isFn {
+									for _, d := range dispatches {
+										if d.sw == nil {
+											if len(call.Args) == 2 && inOrder(call.Args) {
+												okApply = true
+											} else {
+												whyApply = "the operands are not handed to the operator function in order"
+											}
+										}
+									}
+								}
+							}
+						}
+						return true
+					})
 				}
-				// every successful return of the arm lies inside the operator switch
+				// variables that receive the result of applying the operator
+				applied := map[types.Object]bool{}
+				ast.Inspect(&ast.BlockStmt{List: cl.Body}, func(m ast.Node) bool {
+					if as, ok := m.(*ast.AssignStmt); ok && len(as.Rhs) == 1 {
+						if call, ok := ast.Unparen(as.Rhs[0]).(*ast.CallExpr); ok && inOrder(call.Args) {
+							if id, ok := as.Lhs[0].(*ast.Ident); ok {
+								applied[info.ObjectOf(id)] = true
+							}
+						}
+					}
+					return true
+				})
+				c.Check("R8", name+": a binary node's operands reach the operator in order", p.Pos(cl.Pos()), okApply, whyApply)
+				// every successful return of the arm is the operator's result
 				ast.Inspect(&ast.BlockStmt{List: cl.Body}, func(m ast.Node) bool {
 					if _, isLit := m.(*ast.FuncLit); isLit {
 						return false
@@ -888,58 +1115,20 @@ func operatorTable(c *core.Ctx, p *load.Prog) {
 					if !ok || len(r.Results) != 2 || !lastResultIsNil(r) {
 						return true
 					}
-					inside := opSwitch.Pos() <= r.Pos() && r.End() <= opSwitch.End()
-					c.Check("R8", fmt.Sprintf("%s: a binary node's value is the operator applied to its operands (return at %s)", name, p.Pos(r.Pos())), p.Pos(r.Pos()), inside,
+					good := false
+					if viaSwitch != nil && viaSwitch.sw.Pos() <= r.Pos() && r.End() <= viaSwitch.sw.End() {
+						good = true
+					}
+					if id, ok := ast.Unparen(r.Results[0]).(*ast.Ident); ok && applied[info.ObjectOf(id)] {
+						good = true
+					}
+					if call, ok := ast.Unparen(r.Results[0]).(*ast.CallExpr); ok && inOrder(call.Args) {
+						good = true
+					}
+					c.Check("R8", fmt.Sprintf("%s: a binary node's value is the operator applied to its operands (return at %s)", name, p.Pos(r.Pos())), p.Pos(r.Pos()), good,
 						"the binary node arm returns "+wire.Canon(r.Results[0])+" as a result without applying the operator: the schema's value and the generated constant differ for the operands that take this path")
 					return true
 				})
-				for _, occ := range opSwitch.Body.List {
-					ocl := occ.(*ast.CaseClause)
-					for _, ke := range ocl.List {
-						kid, ok := ast.Unparen(ke).(*ast.Ident)
-						if !ok {
-							continue
-						}
-						text, known := spelled[kid.Name]
-						want, knownOp := goOp[text]
-						if !known || !knownOp {
-							c.Undecide("%s: the spelling of operator kind %s is not registered with the token tree in a form the rule reads", name, kid.Name)
-							continue
-						}
-						okArm := false
-						why := "no successful return in the clause"
-						for _, stmt := range ocl.Body {
-							r, ok := stmt.(*ast.ReturnStmt)
-							if !ok || len(r.Results) != 2 || !lastResultIsNil(r) {
-								continue
-							}
-							be, ok := ast.Unparen(r.Results[0]).(*ast.BinaryExpr)
-							if !ok {
-								why = "returns " + wire.Canon(r.Results[0]) + ", not an application of the operator"
-								continue
-							}
-							l, okl := ast.Unparen(be.X).(*ast.Ident)
-							rr, okr := ast.Unparen(be.Y).(*ast.Ident)
-							if !okl || !okr {
-								why = "the operands of " + wire.Canon(be) + " are not the two evaluated operands"
-								continue
-							}
-							li, lok := operand[info.ObjectOf(l)]
-							ri, rok := operand[info.ObjectOf(rr)]
-							switch {
-							case !lok || !rok:
-								why = "the operands of " + wire.Canon(be) + " are not the two evaluated operands"
-							case li != 0 || ri != 1:
-								why = "the operands of " + wire.Canon(be) + " are swapped"
-							case be.Op != want:
-								why = fmt.Sprintf("the schema operator %q is computed with Go's %s", text, be.Op)
-							default:
-								okArm = true
-							}
-						}
-						c.Check("R8", fmt.Sprintf("%s computes %q with the Go operator of the same spelling", name, text), p.Pos(ocl.Pos()), okArm, why)
-					}
-				}
 			}
 			return true
 		})
